@@ -98,6 +98,20 @@ CHECKS = {
         note="Hash seeds and listing orders are sampled (seeded); pool.map semantics (fresh callable per chunk, results in "
              "input order) are transcribed in harness/schedshim.py; equality with R itself is C01's subject.",
         ref="5/C14"),
+    "C08": dict(
+        technique="TLA+ frame relation AnnotateRel (Header.tla) on abstract line sequences vs mechanism model MAnnotate "
+                  "(find first REUSE comment, shebang extraction, placement) model-checked by TLC for every body up to "
+                  "the bound per style class; the same bodies rendered in every concrete comment style, annotated for "
+                  "real; TLC trace validation of before/after line sequences, BOM, line endings, final newline",
+        text="For every sequence of up to MaxLines line kinds (code, indented, blank, whitespace-only, own / foreign / "
+             "tagged comments, multi-line blocks, first-line declarations and a repeated copy of them, closer-plus-code) "
+             "in every named comment style, replace and --no-replace, TLC decides that all lines outside one replaced "
+             "tagged comment block are kept in order byte for byte, the new block is contiguous, blank-line and "
+             "trailing-blank changes touch the header only, BOM and first-line declaration stay first, and the line-ending "
+             "convention and final newline are kept.",
+        note="Lines are matched by exact bytes (unique payloads); tag lines re-rendered inside the new header count as "
+             "header material; one open finding (KF-C08-1, closer followed by code) is matched by a TLA+ signature.",
+        ref="5/C08"),
     "C03": dict(
         technique="TLA+ requirement CoverReq (three-valued: must / must not / unpinned) vs walk-with-pruning mechanism "
                   "model-checked by TLC; TLC-enumerated directory-context x name-class x type x VCS-wish nodes built as "
